@@ -10,6 +10,7 @@ import (
 	"github.com/mimecast/dtail/internal/server/handlers"
 	"github.com/mimecast/dtail/internal/source"
 	userserver "github.com/mimecast/dtail/internal/user/server"
+	"github.com/mimecast/dtail/verif/vos"
 	"github.com/mimecast/dtail/verif/vrt"
 )
 
@@ -19,6 +20,9 @@ type c10Case struct {
 	Kind    string `json:"kind"`    // command | raw | health
 	Payload string `json:"payload"` // decoded command (kind command/health) or raw bytes
 	Split   int    `json:"split"`   // write in two chunks at this byte offset (0 = one write)
+	// PauseMs: the commands of a raw payload arrive that many (virtual) milliseconds apart, and every read(2) of a
+	// data file takes 1 ms, so that earlier commands are at work when later ones arrive
+	PauseMs int `json:"pause_ms,omitempty"`
 }
 
 func c10Wire(cs c10Case) []byte {
@@ -35,7 +39,13 @@ func c10Run(cs c10Case, probe string) (viol string, trunc bool) {
 		args := DefaultArgs()
 		args.Logger = "none"
 		args.LogLevel = "error"
-		StartEnv(source.Server, &args, func() { config.Server.MaxLineLength = 64 })
+		StartEnv(source.Server, &args, func() {
+			config.Server.MaxLineLength = 64
+			if cs.PauseMs > 0 {
+				vos.S.ReadDelay = time.Millisecond
+				vos.S.ReadDelayPrefix = Scratch() + "/c10/"
+			}
+		})
 		cat := vrt.Make[struct{}]("catLimiter", 2)
 		tail := vrt.Make[struct{}]("tailLimiter", 2)
 		var att *Session
@@ -56,7 +66,14 @@ func c10Run(cs c10Case, probe string) (viol string, trunc bool) {
 				b = b[n:]
 			}
 		}
-		if cs.Split > 0 && cs.Split < len(w) {
+		if cs.PauseMs > 0 {
+			for _, part := range strings.SplitAfter(string(w), ";") {
+				if part != "" {
+					feed([]byte(part))
+					vrt.Sleep("between-commands", time.Duration(cs.PauseMs)*time.Millisecond)
+				}
+			}
+		} else if cs.Split > 0 && cs.Split < len(w) {
 			feed(w[:cs.Split])
 			feed(w[cs.Split:])
 		} else {
@@ -99,6 +116,15 @@ func c10Run(cs c10Case, probe string) (viol string, trunc bool) {
 		return res.Fail.Error(), false
 	}
 	return "", res.Trunc != ""
+}
+
+// c10Big writes a file that takes a session longer to deliver than the command stream takes to arrive.
+func c10Big() {
+	var sb strings.Builder
+	for i := 0; i < 1500; i++ {
+		fmt.Fprintf(&sb, "big line %d\n", i)
+	}
+	WriteScratch("c10/big.log", sb.String())
 }
 
 func c10Sig(cs c10Case, msg string) string {
@@ -191,6 +217,24 @@ func c10Cases(thorough bool, emit func(c10Case)) {
 			emit(c10Case{Kind: "raw", Payload: string(WireCommand("map "+q)) + string(WireCommand("cat "+f+" regex:noop "))})
 		}
 	}
+	// every ordered pair and triple of well-formed commands on ONE session (a later command arrives while the
+	// earlier ones are still running: the big file takes longer than the command stream)
+	{
+		big := Scratch() + "/c10/big.log"
+		alpha := []string{"cat " + big + " regex:noop ", "cat " + probe + " regex:noop ", "tail " + probe + " regex:noop ", "grep " + big + " regex:default line 1",
+			"map select count($line) group by $hostname", "map select count($line),$hostname group by $hostname interval 1 limit 2"}
+		c10Seq(alpha, 3, "\x00", func(seq string) {
+			if !strings.Contains(seq, "\x00") {
+				return
+			}
+			raw := ""
+			for _, cmd := range strings.Split(seq, "\x00") {
+				raw += string(WireCommand(cmd))
+			}
+			emit(c10Case{Kind: "raw", Payload: raw})
+			emit(c10Case{Kind: "raw", Payload: raw, PauseMs: 2})
+		})
+	}
 	// envelopes
 	b64 := base64.StdEncoding.EncodeToString([]byte("cat " + probe + " regex:noop "))
 	etoks := []string{"protocol", "4.1", "3", "9", "base64", "!!!", b64, ""}
@@ -219,7 +263,7 @@ func init() {
 		ID:    "C10",
 		Level: "exploration",
 		Rule: "client inputs enumerated exhaustively from token alphabets: 9 command words x 12 option suffixes (incl. huge and negative context values) x all sequences of <=2 (quick) / <=3 (thorough) of 16 argument tokens (incl. globs in unclean path form); " +
-			"'map' + all sequences of <=3 / <=4 of 28 query tokens; map followed by a read command; all <=4-token sequences of 8 protocol-envelope tokens; 3 commands split across two Write " +
+			"'map' + all sequences of <=3 / <=4 of 28 query tokens; map followed by a read command; every ordered pair and triple over 6 well-formed commands (cat of a 1500-line file, cat, tail, grep, two map queries) on one session, back to back and 2 ms apart with 1 ms per read(2) (so that later commands arrive while earlier ones are at work); all <=4-token sequences of 8 protocol-envelope tokens; 3 commands split across two Write " +
 			"calls at every byte; 8 inputs to a health session.  Each is fed to a real ServerHandler/HealthHandler under the controlled scheduler (panic in ANY goroutine is caught), " +
 			"then a second user's session on the same limiters must still deliver its file.  non-trivial = distinct input strings",
 		Assumptions: []string{
@@ -227,12 +271,13 @@ func init() {
 		},
 		Run: func(c *Ctx) {
 			probe := WriteScratch("c10/probe.log", "probe line 1\nprobe line 2\n")
+			c10Big()
 			trunc := 0
 			c10Cases(c.Thorough(), func(cs c10Case) {
 				if !c.Mine() || c.Expired() {
 					return
 				}
-				c.Count(cs.Kind + "|" + cs.Payload + "|" + fmt.Sprint(cs.Split))
+				c.Count(cs.Kind + "|" + cs.Payload + "|" + fmt.Sprint(cs.Split, cs.PauseMs))
 				v, tr := c10Run(cs, probe)
 				if tr {
 					trunc++
@@ -252,6 +297,7 @@ func init() {
 				return "cannot decode input"
 			}
 			probe := WriteScratch("c10/probe.log", "probe line 1\nprobe line 2\n")
+			c10Big()
 			v, _ := c10Run(cs, probe)
 			return v
 		},
